@@ -99,19 +99,32 @@ type SpecFunc struct {
 type ContractSet struct {
 	Funcs map[string]*Contract  // "pkgpath.key"
 	Specs map[string]*SpecFunc  // "pkgpath.name"
+	Axioms map[string][]*Axiom  // pkgpath -> definitional axioms about its uninterpreted spec functions
 	Files []string
+}
+
+// Axiom: `axiom name: expr` - a closed formula defining an uninterpreted spec
+// function (typically its recursive unfolding). Assumed wherever one of the spec
+// functions it mentions is used; listed in the evidence as an assumption.
+type Axiom struct {
+	Name string
+	Pkg  string
+	E    CExpr
+	Src  string
+	Line int
+	File string
 }
 
 var clauseKeywords = map[string]bool{
 	"func": true, "requires": true, "ensures": true, "assigns": true, "loop": true,
 	"safety": true, "mode": true, "strings": true, "trusted": true, "pure": true, "inline": true,
-	"spec": true, "lemma": true, "at-call": true, "unroll": true, "atomic": true, "inventory": true, "allowed-calls": true, "abstract-calls": true,
+	"spec": true, "lemma": true, "axiom": true, "at-call": true, "unroll": true, "atomic": true, "inventory": true, "allowed-calls": true, "abstract-calls": true,
 }
 
 var tagRe = regexp.MustCompile(`^\[(C[0-9]+\.[A-Za-z0-9_.-]+)\]\s*`)
 
 func newContractSet() *ContractSet {
-	return &ContractSet{Funcs: map[string]*Contract{}, Specs: map[string]*SpecFunc{}}
+	return &ContractSet{Funcs: map[string]*Contract{}, Specs: map[string]*SpecFunc{}, Axioms: map[string][]*Axiom{}}
 }
 
 // loadContractFile parses one contract file for package pkgPath.
@@ -184,6 +197,17 @@ func (cs *ContractSet) loadContractFile(path, pkgPath string) error {
 				return fmt.Errorf("%s:%d: duplicate contract for %s", path, st.line, full)
 			}
 			cs.Funcs[full] = cur
+		case "axiom":
+			// axiom name: expr
+			ci := strings.Index(rest, ":")
+			if ci < 0 {
+				return fmt.Errorf("%s:%d: axiom needs `axiom name: expr`", path, st.line)
+			}
+			ae, err := parseCExpr(strings.TrimSpace(rest[ci+1:]))
+			if err != nil {
+				return fmt.Errorf("%s:%d: %v", path, st.line, err)
+			}
+			cs.Axioms[pkgPath] = append(cs.Axioms[pkgPath], &Axiom{Name: strings.TrimSpace(rest[:ci]), Pkg: pkgPath, E: ae, Src: strings.TrimSpace(rest[ci+1:]), Line: st.line, File: path})
 		case "spec":
 			// spec name(a T, b U) R = expr
 			eq := strings.Index(rest, "=")
